@@ -149,8 +149,10 @@ func descrOne(xs []float64, sorted bool, ps []float64, tag string) {
 	if sorted {
 		sort.Float64s(xs)
 	}
-	s := stats.Sample{Xs: xs, Sorted: sorted}
+	win, xv := newWindow(xs)
+	s := stats.Sample{Xs: xv, Sorted: sorted}
 	var mean, vr, sd, geo, mn, mx, iqr, bmn, bmx float64
+	again := true
 	pct := make([]float64, len(ps))
 	lx := make([]float64, len(xs))
 	for i, x := range xs {
@@ -167,15 +169,29 @@ func descrOne(xs []float64, sorted bool, ps []float64, tag string) {
 		sd = s.StdDev()
 		geo = s.GeoMean()
 		mn, mx = s.Bounds()
-		bmn, bmx = stats.Bounds(xs)
+		bmn, bmx = stats.Bounds(xv)
 		for i, p := range ps {
 			pct[i] = s.Percentile(p)
 		}
 		iqr = s.IQR()
+		// the same Sample queried again in another order must answer identically (no state is
+		// left behind by Percentile/IQR/Bounds, nothing was sorted in place)
+		first := append([]float64{mean, vr, sd, geo, mn, mx, iqr}, pct...)
+		var second []float64
+		iqr2 := s.IQR()
+		pct2 := make([]float64, len(ps))
+		for i := len(ps) - 1; i >= 0; i-- {
+			pct2[i] = s.Percentile(ps[i])
+		}
+		mn2, mx2 := s.Bounds()
+		geo2, sd2, vr2, mean2 := s.GeoMean(), s.StdDev(), s.Variance(), s.Mean()
+		second = append([]float64{mean2, vr2, sd2, geo2, mn2, mx2, iqr2}, pct2...)
+		again = sameBits(first, second)
 	})
-	hx.Printf("case %d kind=descr xs=%s sorted=%d ps=%s lx=%s mlog=%s emlog=%s gmean=%s gvar=%s gsd=%s ggeo=%s gmin=%s gmax=%s gpct=%s giqr=%s tag=%s\n",
+	kept := win.kept()
+	hx.Printf("case %d kind=descr xs=%s sorted=%d ps=%s lx=%s mlog=%s emlog=%s gmean=%s gvar=%s gsd=%s ggeo=%s gmin=%s gmax=%s gpct=%s giqr=%s kept=%s again=%s tag=%s\n",
 		id, fbList(xs), sflag, fbList(ps), fbList(lx), fb(mlog), fb(math.Exp(mlog)),
-		fb(mean), fb(vr), fb(sd), fb(geo), fb(mn), fb(mx), fbList(pct), fb(iqr), tag)
+		fb(mean), fb(vr), fb(sd), fb(geo), fb(mn), fb(mx), fbList(pct), fb(iqr), b2s(kept, "1", "0"), b2s(again, "1", "0"), tag)
 	if ok {
 		// K (i): the float64 instance of the model must reproduce these bits
 		hx.Printf("obs %d f64 mean=%s var=%s geo=%s min=%s max=%s bmin=%s bmax=%s pct=%s iqr=%s\n",
@@ -183,7 +199,7 @@ func descrOne(xs []float64, sorted bool, ps []float64, tag string) {
 		// K (ii): the exact instance of the model within k ulps of the data's scale
 		hx.Printf("obs %d q mean=ok var=ok pct=ok iqr=ok\n", id)
 		// S: textbook definitions, percentile order and range, judged by the driver
-		hx.Printf("sobs %d mean=ok var=ok sd=ok geo=ok bounds=ok pct=ok pmono=ok pbound=ok iqr=ok\n", id)
+		hx.Printf("sobs %d mean=ok var=ok sd=ok geo=ok bounds=ok pct=ok pmono=ok pbound=ok iqr=ok in=kept again=same\n", id)
 	}
 	id++
 }
